@@ -303,6 +303,26 @@ theorem specGroups_single (d : Val) (ds : List Val) :
   rw [List.map_cons, specGroups_cons, e1, e2]
   simp [specGroups_nil, Function.comp_def]
 
+/-- the accumulator specifications the oracle reads pass the code's up-front validation -/
+theorem validateAccs_of_specsOk : ∀ (options : Fields), accSpecsOk options = true →
+    validateAccs options = .ok ()
+  | [], _ => rfl
+  | (name, spec) :: rest, h => by
+    simp only [accSpecsOk, Bool.and_eq_true, Bool.or_eq_true, decide_eq_true_eq] at h
+    obtain ⟨h1, h2⟩ := h
+    have ih := validateAccs_of_specsOk rest h2
+    by_cases hn : name = "_id"
+    · simp only [validateAccs, hn, if_true, ih]
+    · simp only [hn, false_or] at h1
+      match spec, h1 with
+      | .doc [(op, e)], h1 =>
+        have hop : accNames.contains op = true := by
+          simp only [specAccNames, List.contains_cons, List.contains_nil, Bool.or_false,
+            Bool.or_eq_true, beq_iff_eq] at h1
+          rcases h1 with h | h | h | h | h | h | h | h <;> subst h <;> decide
+        simp only [validateAccs, hn, if_false, List.all_cons, List.all_nil, Bool.and_true, hop,
+          if_true, ih]
+
 /-- **`$group` = the oracle's sorted representative** on the domain -/
 theorem group_eq_spec_sorted (opts : Val) (docs s : List Val)
     (hD : groupReasons opts docs = []) (hs : specGroupStageSorted opts docs = some s) :
@@ -310,6 +330,12 @@ theorem group_eq_spec_sorted (opts : Val) (docs s : List Val)
   match opts, hD, hs with
   | .doc options, hD, hs =>
     simp only [groupReasons, specGroupStageSorted] at hD hs
+    have hok : accSpecsOk options = true := by
+      cases h : accSpecsOk options with
+      | true => rfl
+      | false => simp [h] at hs
+    simp only [hok, Bool.not_true, Bool.false_eq_true, if_false] at hs
+    rw [groupStage_valid options docs (validateAccs_of_specsOk options hok)]
     cases hid : dget "_id" options with
     | none => simp [hid] at hs
     | some idExpr =>
@@ -341,7 +367,7 @@ theorem group_eq_spec_sorted (opts : Val) (docs s : List Val)
               fun p hp => hK p (hperm.mem_iff.1 hp)
             have hruns := groupRuns_sorted_eq_spec _ (isort ltp kds) (Nat.le_refl _) hKs
               (isort_sorted strictWeak_pairs kds)
-            simp only [groupStage, hid, ht, Bool.not_false, if_true, hkeyed, hshallow,
+            simp only [groupBody, hid, ht, Bool.not_false, if_true, hkeyed, hshallow,
               Bool.not_true, Bool.false_eq_true, if_false, group_sort_eq kds hK]
             rw [hruns, specGroups_isort]
             exact hemit
@@ -364,12 +390,12 @@ theorem group_eq_spec_sorted (opts : Val) (docs s : List Val)
             cases docs with
             | nil =>
               rw [hkd] at hemit
-              simp only [groupStage, hid, Expr.isNull, Bool.not_true, Bool.false_eq_true,
+              simp only [groupBody, hid, Expr.isNull, Bool.not_true, Bool.false_eq_true,
                 if_false, List.isEmpty_nil, if_true]
               simpa [specGroups_nil, isort] using hemit
             | cons d ds =>
               rw [hkd, specGroups_single] at hemit
-              simp only [groupStage, hid, Expr.isNull, Bool.not_true, Bool.false_eq_true,
+              simp only [groupBody, hid, Expr.isNull, Bool.not_true, Bool.false_eq_true,
                 if_false, List.isEmpty_cons]
               simpa [isort, insertBy] using hemit
 
@@ -408,6 +434,11 @@ theorem specGroupStageSorted_perm (opts : Val) (docs s : List Val)
   cases opts with
   | doc options =>
     simp only [specGroupStage] at hs
+    have hok : accSpecsOk options = true := by
+      cases h : accSpecsOk options with
+      | true => rfl
+      | false => simp [h] at hs
+    simp only [hok, Bool.not_true, Bool.false_eq_true, if_false] at hs
     cases hid : dget "_id" options with
     | none => simp [hid] at hs
     | some idExpr =>
@@ -418,7 +449,8 @@ theorem specGroupStageSorted_perm (opts : Val) (docs s : List Val)
         obtain ⟨s', h1, h2⟩ := mapOpt_perm _
           (isort_perm (fun a b : Val × List Val => valLt a.1 b.1) (specGroups kds)) s hs
         refine ⟨s', ?_, h2⟩
-        simp only [specGroupStageSorted, hid, hk, Option.bind_some]
+        simp only [specGroupStageSorted, hok, Bool.not_true, Bool.false_eq_true, if_false, hid, hk,
+          Option.bind_some]
         have : specGroupDocs options (isort (fun a b => valLt a.1 b.1) (specGroups kds)) = some s' := h1
         rw [this]; rfl
   | _ => simp [specGroupStage] at hs
